@@ -714,6 +714,38 @@ exh:
 	h.Col.Exhaustive("all hold combinations over lifecycle sequences of <=3 calls (see rule for the quick-tier thinning of two-restart sequences)", complete && h.Thorough())
 	h.Col.Note("exhaustive_schedules_enumerated", n)
 
+	// lifecycle calls mixed with run-time reconfiguration and failing Starts (second evaluator, no schedule control)
+	{
+		fixed := [][]string{
+			{"start", "settlsport0", "restart", "stop"},
+			{"start", "config-tlsport0", "restart", "stop"},
+			{"start", "config-port0", "stop"},
+			{"start", "setport0", "stop", "setport", "start", "stop"},
+			{"occupy-tls", "start", "free-tls", "start", "stop"},
+			{"drop-cert", "start", "restore-cert", "start", "stop"},
+			{"occupy-tls", "start", "stop", "free-tls", "start", "restart", "stop"},
+			{"start", "stop", "drop-cert", "start", "stop", "restore-cert", "start", "stop"},
+		}
+		for i, ops := range fixed {
+			if i%h.NShards != h.Shard {
+				continue
+			}
+			c := c15Cfg{Ops: ops}
+			h.Col.Case(true, []byte(fmt.Sprint("cfg", ops)), "reconfiguration-and-failed-start")
+			h.Report("c15.config", c, evalC15Cfg(c))
+		}
+		h.Rapid("config", h.N(40, 2000)/h.NShards+1, func(rt *rapid.T) {
+			var ops []string
+			for i, n := 0, rapid.IntRange(2, 9).Draw(rt, "nops"); i < n; i++ {
+				ops = append(ops, rapid.SampledFrom([]string{"start", "start", "stop", "restart", "restart", "setport0", "setport", "settlsport0", "settlsport", "config-port0", "config-tlsport0",
+					"occupy-tls", "free-tls", "drop-cert", "restore-cert"}).Draw(rt, "op"))
+			}
+			c := c15Cfg{Ops: ops}
+			h.Col.Case(true, []byte(fmt.Sprint("cfg", ops)), "reconfiguration-and-failed-start")
+			h.Fail(rt, "c15.config", c, evalC15Cfg(c))
+		})
+	}
+
 	nrand := h.N(120, 4000) / h.NShards
 	if nrand < 5 {
 		nrand = 5
